@@ -266,18 +266,57 @@ def t_text_codecs(data: bytes) -> None:
             call()
         except LIBEXC:
             pass
-    try:
-        w = b32.witness_from_address(text)
-    except LIBEXC:
-        return
-    try:
-        again = b32.address_from_witness(w[0], w[1], w[2])
-    except LIBEXC as e:
-        _fail("C06", "segwit-address:decoded-payload-refused-by-the-encoder", f"{text!r}: {e}", e)
-        return
-    # which blanks a decoder forgives around an address is its own business: the identity is asked of a string without any
-    if text.strip() == text and again != text.lower():
-        _fail("C06", "segwit-address:decode-encode-differs", f"{text!r} -> {again!r}")
+    # C06: on every input, and on a string the reference checksums for a (hrp, version, program) decoded from the input and then edits character by
+    # character (a fuzzer cannot forge a checksum; handed one it can explore everything behind it), the verdict and the payload are the reference's
+    from btclib.network import NETWORKS
+    from vlib.models import segwit_addr_ref as sref
+
+    hrps = sorted({n.hrp for n in NETWORKS.values()})
+    candidates = [text]
+    if len(data) >= 3:
+        hrp = hrps[data[0] % len(hrps)]
+        ver = data[1] % 18
+        prog = list(data[3 : 3 + data[2] % 42])
+        spec = sref.Encoding.BECH32 if (ver == 0) != bool(data[1] & 0x40) else sref.Encoding.BECH32M
+        built = sref.bech32_encode(hrp, [ver % 32] + sref.convertbits(prog, 8, 5), spec)
+        if data[1] & 0x80:
+            built = built.upper()
+        rest = data[3 + data[2] % 42 :]
+        chars = list(built)
+        for k in range(0, len(rest) - 1, 2):  # (position, character) pairs
+            pos = rest[k] % len(chars)
+            if rest[k + 1] < 0x80:
+                chars[pos] = chr(rest[k + 1])
+            else:
+                # a character outside ASCII that case mapping sends into the alphabet (KELVIN SIGN -> k), at the next k from the position on if there is one
+                ks = [q % len(chars) for q in range(pos, pos + len(chars)) if chars[q % len(chars)] in "kK"]
+                chars[ks[0] if ks else pos] = "\u212a"
+        candidates += [built, "".join(chars)]
+    for t in candidates:
+        if t.strip() != t:
+            continue  # which blanks a decoder forgives around an address is its own business
+        want = None
+        for hrp in hrps:
+            ver, prog = sref.decode(hrp, t)
+            if ver is not None:
+                want = (ver, bytes(prog), hrp)
+        try:
+            w = b32.witness_from_address(t)
+        except LIBEXC:
+            w = None
+        if (w is None) != (want is None):
+            _fail("C06", f"segwit-address:verdict:lib={'refused' if w is None else 'accepted'}:ref={'refused' if want is None else 'accepted'}", repr(t))
+        if w is None or want is None:
+            continue
+        if (w[0], bytes(w[1])) != want[:2] or NETWORKS[w[2]].hrp != want[2]:
+            _fail("C06", "segwit-address:payload-differs-from-the-reference", f"{t!r}: lib={w!r} ref={want!r}")
+        try:
+            again = b32.address_from_witness(w[0], w[1], w[2])
+        except LIBEXC as e:
+            _fail("C06", "segwit-address:decoded-payload-refused-by-the-encoder", f"{t!r}: {e}", e)
+            continue
+        if again != sref.encode(want[2], want[0], list(want[1])):
+            _fail("C06", "segwit-address:decode-encode-differs", f"{t!r} -> {again!r}")
 
 
 TARGETS = {
